@@ -1,13 +1,446 @@
 /-
 C18 — The media proxy serves only token holders and cleans up after them.
+
+Property theorems about the model of `proxy/proxy_server.go` / `proxy_session.go`
+(`Model/Proxy.lean`), defined over the facts regenerated from the source
+(`Generated/Proxy.lean`), against the statement's own notions (`Spec/Proxy.lean`).
+Signatures are an oracle (`Tok.verifies`), not an axiom: every theorem holds
+for every oracle.
 -/
-import SigModel.Spec.Proxy
+import SigModel.Lemmas.Proxy
 
 namespace SigModel.Proxy
 open SigModel.Generated.Proxy
 
+/-! ## 0. The code's constants are the statement's -/
+
 /-- The numbers and the list in the code are those of the statement. -/
 theorem C18_constants :
-    validMethods = stmtAlgs ∧ (maxTokenAge : Int) = stmtMaxAge ∧ (tokenLeeway : Int) = stmtLeeway := by decide
+    validMethods = stmtAlgs ∧ (maxTokenAge : Int) = stmtMaxAge ∧ (tokenLeeway : Int) = stmtLeeway ∧
+    algsOfMethodType keyfuncMethodType = stmtAlgs := by decide
+
+/-! ## 1. A session is created only for a valid token -/
+
+/-- The token decision: whatever `parseToken` accepts is RS256/384/512, verifies
+under the key configured for its issuer, and carries an `iat` inside the window
+`[now − (5 min + 1 min), now + 1 min]` — for every token, clock and oracle. -/
+theorem C18_accept_needs_valid_token (cfg : Cfg) (now : Int) (t : Tok)
+    (h : parseToken cfg now t = none) : ValidToken cfg now t :=
+  parseToken_ok_valid cfg now t h
+
+/-- Conversely (the model does not hold vacuously by refusing everything): a
+well-formed valid token whose `exp` / `nbf`, if present, are in order is accepted. -/
+theorem C18_valid_token_accepted (cfg : Cfg) (now : Int) (t : Tok) (hw : t.wellformed = true)
+    (hv : ValidToken cfg now t) (he : expOK now t = true) (hn : nbfOK now t = true) :
+    parseToken cfg now t = none := by
+  rw [parseToken_none_iff]
+  obtain ⟨halg, ⟨k, hk, hkv⟩, i, hi, hlo, hhi⟩ := hv
+  have h1 : validMethods = stmtAlgs := by decide
+  have h2 : algsOfMethodType keyfuncMethodType = stmtAlgs := by decide
+  have hcmp : ∀ a b, iatTooOld a b = decide (a < b) := by
+    intro a b; simp [iatTooOld, iatTooOldCmp]
+  simp only [checks, List.mem_cons, List.not_mem_nil, or_false, forall_eq_or_imp, forall_eq]
+  refine ⟨hw, by rw [h1]; simpa using halg, by rw [h2]; simpa using halg, ?_, ?_, he, ?_⟩
+  · have hki : keyByIssuer = true := by decide
+    simp [keyOK, hk, hki, hkv]
+  · have hwi : withIssuedAt = true := by decide
+    simp only [hn, Bool.true_and, iatNotFuture, hwi, Bool.not_true, Bool.false_or, hi, leeway_eq]
+    simp only [stmtLeeway] at hhi
+    simp; omega
+  · simp only [iatRecent, hi, hcmp, maxAgeWindow_eq]
+    simp only [stmtMaxAge, stmtLeeway] at hlo
+    simp; omega
+
+example : ValidToken { keys := [("foo", "k0")] } 1000000000000
+    { alg := "RS384", issuer := "foo", verifies := ["k0"], iat := some 700000000000 } :=
+  (validTokenB_iff _ _ _).mp (by decide)
+
+/-- One step: a session id appears only through a hello whose token is valid. -/
+theorem C18_step_session_needs_token (cfg : Cfg) (st : State) (op : Op) (sid : Nat)
+    (hnew : sid ∈ sids (step cfg st op).1) (hold : sid ∉ sids st) :
+    sid = st.nextSid ∧ ∃ c t, op = .msg c (.hello (.token t)) ∧ ValidToken cfg st.now t := by
+  rcases step_sids cfg st op with h | ⟨c, t, rfl, hp, hs, _⟩
+  · exact absurd (h.1 sid hnew) hold
+  · rw [hs] at hnew
+    rcases List.mem_append.mp hnew with h | h
+    · exact absurd h hold
+    · exact ⟨by simpa using h, c, t, rfl, parseToken_ok_valid cfg _ t hp⟩
+
+theorem run_append (cfg : Cfg) (st : State) (a b : List Op) :
+    run cfg st (a ++ b) = run cfg (run cfg st a) b := by
+  induction a generalizing st with
+  | nil => rfl
+  | cons x xs ih => exact ih _
+
+theorem run_session_origin (cfg : Cfg) (ops : List Op) (st : State) (sid : Nat)
+    (h : sid ∈ sids (run cfg st ops)) :
+    sid ∈ sids st ∨ ∃ pre c t post, ops = pre ++ Op.msg c (.hello (.token t)) :: post ∧
+      ValidToken cfg (run cfg st pre).now t ∧ sid = (run cfg st pre).nextSid := by
+  induction ops generalizing st with
+  | nil => exact Or.inl h
+  | cons op ops ih =>
+    rcases ih (step cfg st op).1 h with h1 | ⟨pre, c, t, post, rfl, hv, hs⟩
+    · by_cases hold : sid ∈ sids st
+      · exact Or.inl hold
+      · obtain ⟨h2, c, t, rfl, hv⟩ := C18_step_session_needs_token cfg st op sid h1 hold
+        exact Or.inr ⟨[], c, t, ops, rfl, hv, h2⟩
+    · exact Or.inr ⟨op :: pre, c, t, post, rfl, hv, hs⟩
+
+/-- **Every history**: each session in the table after any sequence of
+connects, messages, closes, sleeps, expiries and media-server events was created
+by a hello in that history whose token was valid at that moment. -/
+theorem C18_session_needs_token (cfg : Cfg) (ops : List Op) (sid : Nat)
+    (h : sid ∈ sids (run cfg {} ops)) :
+    ∃ pre c t post, ops = pre ++ Op.msg c (.hello (.token t)) :: post ∧
+      ValidToken cfg (run cfg {} pre).now t ∧ sid = (run cfg {} pre).nextSid := by
+  rcases run_session_origin cfg ops {} sid h with h0 | h1
+  · simp [sids] at h0
+  · exact h1
+
+/-- Non-vacuity: a valid hello does create a session. -/
+example : sids (run { keys := [("foo", "k0")] } {}
+    [.connect 0, .msg 0 (.hello (.token { alg := "RS256", issuer := "foo", verifies := ["k0"], iat := some 0 }))])
+    = [1] := by decide
+
+/-- A connection is attached to an existing session (resume) only by presenting
+an id string-equal to the public id of a session that is live. -/
+theorem C18_resume_needs_live_id (cfg : Cfg) (st : State) (c : Nat) (target : Option Nat)
+    (h : ∀ sid, target = some sid → sid ∉ sids st) :
+    doHello cfg st c (.resume target) = (st, errOut c "no_such_session") := by
+  simp only [doHello]
+  cases target with
+  | none => rfl
+  | some sid =>
+    have : findSess st sid = none := by
+      unfold findSess
+      rw [List.find?_eq_none]
+      intro s hs heq
+      exact h sid rfl (List.mem_map.mpr ⟨s, hs, by simpa using heq⟩)
+    simp [this]
+
+/-! ## 2. Nothing before hello -/
+
+/-- The connection has no session. -/
+def Unauth (st : State) (c : Nat) : Prop := ∀ x, findConn st c = some x → x.sess = none
+
+/-- Every message other than hello on a connection without session — any
+command, payload, bye, unknown type, malformed document — is answered with an
+error to that connection only, and the server state does not change at all. -/
+theorem C18_nothing_before_hello (cfg : Cfg) (st : State) (c : Nat) (m : Msg)
+    (hc : Unauth st c) (hm : m.isHello = false) :
+    (step cfg st (.msg c m)).1 = st ∧
+    ∀ p ∈ (step cfg st (.msg c m)).2, p.1 = c ∧ p.2.isErr = true := by
+  simp only [step]
+  unfold doMsg
+  cases hf : findConn st c with
+  | none => simp
+  | some x =>
+    have hx := hc x hf
+    simp only [hx, Option.bind_none]
+    split
+    · simp
+    · split
+      · simp [errOut, SMsg.isErr]
+      · cases m <;> simp_all [Msg.isHello, errOut, SMsg.isErr]
+
+/-- A refused hello (token not accepted, or unknown resume id) has no effect either. -/
+theorem C18_refused_hello_no_effect (cfg : Cfg) (st : State) (c : Nat) (t : Tok)
+    (hc : Unauth st c) (e : TokErr) (hp : parseToken cfg st.now t = some e) :
+    (step cfg st (.msg c (.hello (.token t)))).1 = st ∧
+    ∀ p ∈ (step cfg st (.msg c (.hello (.token t)))).2, p.1 = c ∧ p.2.isErr = true := by
+  simp only [step]
+  unfold doMsg
+  cases hf : findConn st c with
+  | none => simp
+  | some x =>
+    have hx := hc x hf
+    simp only [hx, Option.bind_none]
+    split
+    · simp
+    · simp [Msg.isInvalid, preHelloOnlyType_eq, doHello, newSessionNeedsToken_eq, hp, errOut, SMsg.isErr]
+
+/-- Sequences: any number of such messages from any number of connections
+without session leave the server exactly as it was. -/
+theorem C18_nothing_before_hello_seq (cfg : Cfg) (st : State) (ms : List (Nat × Msg))
+    (h : ∀ p ∈ ms, Unauth st p.1 ∧ p.2.isHello = false) :
+    run cfg st (ms.map fun p => Op.msg p.1 p.2) = st := by
+  induction ms with
+  | nil => rfl
+  | cons p ps ih =>
+    simp only [List.map_cons, run]
+    have hp := h p (List.mem_cons_self ..)
+    rw [(C18_nothing_before_hello cfg st p.1 p.2 hp.1 hp.2).1]
+    exact ih (fun q hq => h q (List.mem_cons_of_mem _ hq))
+
+example : Unauth (run {} {} [.connect 3]) 3 := by
+  intro x hx
+  have : findConn (run {} {} [.connect 3]) 3 = some { id := 3 } := by decide
+  rw [this] at hx; cases hx; rfl
+example : (step {} (run {} {} [.connect 3]) (.msg 3 (.createPub .ok))).2 = [(3, .err "hello_expected")] := by decide
+
+/-! ## 3. Cleanup -/
+
+/-- **Every history**: whatever resolves in the global client table, or is open
+at the media server, belongs to a session that is live.  Hence as soon as a
+session has ended — bye, expiry, or any other way — every publisher and
+subscriber it created is closed and its client ids resolve to nothing. -/
+theorem C18_cleanup (cfg : Cfg) (ops : List Op) (o : Obj)
+    (h : o ∈ (run cfg {} ops).clients ∨ o ∈ (run cfg {} ops).mcuOpen) :
+    o.owner ∈ sids (run cfg {} ops) := by
+  have inv := Inv_run (cfg := cfg) ops Inv_init
+  have ho : o ∈ (run cfg {} ops).clients := by
+    rcases h with h | h
+    · exact h
+    · exact inv.openRes o h
+  obtain ⟨s, hs, h1, _⟩ := inv.owned o ho
+  exact List.mem_map.mpr ⟨s, hs, h1⟩
+
+theorem nextSid_mono (cfg : Cfg) (st : State) (op : Op) : st.nextSid ≤ (step cfg st op).1.nextSid := by
+  rcases step_sids cfg st op with h | ⟨_, _, _, _, _, h⟩
+  · rw [h.2]; exact Nat.le_refl _
+  · omega
+
+/-- A session id that has been used and is gone never comes back. -/
+theorem C18_ended_stays_ended (cfg : Cfg) (ops : List Op) (st : State) (sid : Nat)
+    (hused : sid < st.nextSid) (hgone : sid ∉ sids st) : sid ∉ sids (run cfg st ops) := by
+  induction ops generalizing st with
+  | nil => exact hgone
+  | cons op ops ih =>
+    apply ih (step cfg st op).1 (Nat.lt_of_lt_of_le hused (nextSid_mono cfg st op))
+    intro hin
+    rcases step_sids cfg st op with h | ⟨_, _, _, _, hs, _⟩
+    · exact hgone (h.1 sid hin)
+    · rw [hs] at hin
+      rcases List.mem_append.mp hin with h | h
+      · exact hgone h
+      · simp at h; omega
+
+theorem sids_lt_nextSid (cfg : Cfg) (ops : List Op) (sid : Nat) (h : sid ∈ sids (run cfg {} ops)) :
+    sid < (run cfg {} ops).nextSid := by
+  obtain ⟨s, hs, rfl⟩ := List.mem_map.mp h
+  exact (Inv_run (cfg := cfg) ops Inv_init).sidsLt s hs
+
+/-- The cleanup clause in the words of the statement: if session `sid` existed
+after `pre` and is gone after `pre ++ mid`, then after every continuation
+`pre ++ mid ++ post` no object created by it resolves or is open. -/
+theorem C18_cleanup_after_end (cfg : Cfg) (pre mid post : List Op) (sid : Nat)
+    (hlive : sid ∈ sids (run cfg {} pre)) (hgone : sid ∉ sids (run cfg {} (pre ++ mid))) (o : Obj)
+    (ho : o ∈ (run cfg {} (pre ++ mid ++ post)).clients ∨ o ∈ (run cfg {} (pre ++ mid ++ post)).mcuOpen) :
+    o.owner ≠ sid := by
+  intro heq
+  have h1 := C18_cleanup cfg (pre ++ mid ++ post) o ho
+  rw [heq, run_append cfg {} (pre ++ mid) post] at h1
+  refine C18_ended_stays_ended cfg post _ sid ?_ hgone h1
+  have := sids_lt_nextSid cfg pre sid hlive
+  rw [run_append]
+  have mono : ∀ (l : List Op) (st : State), st.nextSid ≤ (run cfg st l).nextSid := by
+    intro l
+    induction l with
+    | nil => intro st; exact Nat.le_refl _
+    | cons op l ih => intro st; exact Nat.le_trans (nextSid_mono cfg st op) (ih _)
+  exact Nat.lt_of_lt_of_le this (mono mid _)
+
+/-- Sessions do end: bye removes the session of the connection … -/
+theorem C18_bye_ends_session (cfg : Cfg) (st : State) (c : Nat) (x : Conn) (s : Sess)
+    (hx : findConn st c = some x) (ho : x.isOpen = true) (hs : x.sess = some s.sid)
+    (hf : findSess st s.sid = some s) :
+    s.sid ∉ sids (step cfg st (.msg c .bye)).1 := by
+  simp only [step]
+  unfold doMsg
+  simp only [hx, ho, Bool.not_true, Bool.false_eq_true, if_false, Msg.isInvalid, Bool.and_false, hs,
+    Option.bind_some, hf, doSessionMsg]
+  exact closeSession_not_mem _ _
+
+/-- … and the expiry routine removes every session unused for longer than
+`sessionExpirationTime`. -/
+theorem C18_expire_ends_sessions (cfg : Cfg) (st : State) (s : Sess) (hs : s ∈ st.sessions)
+    (he : isExpired st s = true) : s.sid ∉ sids (step cfg st .expire).1 := by
+  simp only [step]
+  apply closeAll_not_mem
+  exact List.mem_map.mpr ⟨s, List.mem_filter.mpr ⟨hs, he⟩, rfl⟩
+
+/-- Non-vacuity for the cleanup theorems: a session with a publisher and a
+subscriber; after bye both are gone from the table and closed. -/
+def demoCfg : Cfg := { keys := [("foo", "k0")] }
+def demoTok : Tok := { alg := "RS256", issuer := "foo", verifies := ["k0"], iat := some 0 }
+def demoOps : List Op :=
+  [.connect 0, .msg 0 (.hello (.token demoTok)), .msg 0 (.createPub .ok), .msg 0 (.createSub .ok)]
+
+example : (run demoCfg {} demoOps).clients = [⟨1, true, 1⟩, ⟨2, false, 1⟩] ∧
+    (run demoCfg {} demoOps).mcuOpen.length = 2 ∧
+    (run demoCfg {} (demoOps ++ [.msg 0 .bye])).clients = [] ∧
+    (run demoCfg {} (demoOps ++ [.msg 0 .bye])).mcuOpen = [] ∧
+    sids (run demoCfg {} (demoOps ++ [.msg 0 .bye])) = [] := by decide
+
+example : (run demoCfg {} (demoOps ++ [.close 0, .sleep 60000000001, .expire])).clients = [] ∧
+    sids (run demoCfg {} (demoOps ++ [.close 0, .sleep 60000000001, .expire])) = [] ∧
+    sids (run demoCfg {} (demoOps ++ [.close 0, .sleep 60000000000, .expire])) = [1] := by decide
+
+/-! ### Loss of the media server -/
+
+def EmptyFor (st : State) (sid : Nat) : Prop := ∀ s ∈ st.sessions, s.sid = sid → s.pubs = [] ∧ s.subs = []
+
+theorem clearSess_keeps_empty (st : State) (sid sid' : Nat) (h : EmptyFor st sid') :
+    EmptyFor (clearSess sid true true st) sid' := by
+  unfold clearSess
+  cases findSess st sid with
+  | none => exact h
+  | some s0 =>
+    intro s hs heq
+    obtain ⟨s2, hs2, rfl⟩ := mem_updSess.mp hs
+    by_cases h2 : s2.sid = sid
+    · simp [h2]
+    · have hne : (s2.sid == sid) = false := by simpa using h2
+      simp only [hne] at heq ⊢
+      exact h s2 hs2 heq
+
+theorem mcuDownAll_empty (l : List Nat) (st : State) :
+    (∀ sid ∈ l, EmptyFor (mcuDownAll l st).1 sid) ∧
+    (∀ sid, EmptyFor st sid → EmptyFor (mcuDownAll l st).1 sid) := by
+  induction l generalizing st with
+  | nil => exact ⟨fun _ h => (by cases h), fun _ h => h⟩
+  | cons a rest ih =>
+    simp only [mcuDownAll, downClearsPubs_eq, downClearsSubs_eq]
+    obtain ⟨ih1, ih2⟩ := ih (clearSess a true true st)
+    refine ⟨?_, fun sid h => ih2 sid (clearSess_keeps_empty st a sid h)⟩
+    intro sid hs
+    rcases List.mem_cons.mp hs with rfl | hr
+    · exact ih2 _ (clearSess_empties _)
+    · exact ih1 sid hr
+
+/-- When the connection to the media server is lost, nothing resolves any more
+and nothing stays open — for every reachable state; the sessions themselves stay. -/
+theorem C18_mcu_loss (cfg : Cfg) (st : State) (hinv : Inv st) :
+    (step cfg st .mcuDown).1.clients = [] ∧ (step cfg st .mcuDown).1.mcuOpen = [] := by
+  simp only [step]
+  have inv' := Inv_mcuDownAll (st.sessions.map (·.sid)) hinv
+  have hsub := SidsSub_mcuDownAll st (st.sessions.map (·.sid))
+  have hempty := (mcuDownAll_empty (st.sessions.map (·.sid)) st).1
+  have hc : (mcuDownAll (st.sessions.map (·.sid)) st).1.clients = [] := by
+    apply List.eq_nil_iff_forall_not_mem.mpr
+    intro o ho
+    obtain ⟨s, hs, h1, h2⟩ := inv'.owned o ho
+    have hin : s.sid ∈ st.sessions.map (·.sid) := hsub.1 _ (List.mem_map.mpr ⟨s, hs, rfl⟩)
+    obtain ⟨hp, hq⟩ := hempty s.sid hin s hs rfl
+    cases hb : o.isPub <;> simp [listed, hb, hp, hq] at h2
+  refine ⟨hc, ?_⟩
+  apply List.eq_nil_iff_forall_not_mem.mpr
+  intro o ho
+  have := inv'.openRes o ho
+  rw [hc] at this
+  cases this
+
+theorem C18_mcu_loss_run (cfg : Cfg) (ops : List Op) :
+    (run cfg {} (ops ++ [.mcuDown])).clients = [] ∧ (run cfg {} (ops ++ [.mcuDown])).mcuOpen = [] := by
+  rw [run_append]
+  exact C18_mcu_loss cfg _ (Inv_run ops Inv_init)
+
+example : (run demoCfg {} (demoOps ++ [.mcuDown])).clients = [] ∧
+    sids (run demoCfg {} (demoOps ++ [.mcuDown])) = [1] ∧
+    (step demoCfg (run demoCfg {} demoOps) .mcuDown).2 = [(0, .ev "backend-disconnected")] := by decide
+
+/-! ## 4. Deleting works only for the owner -/
+
+theorem findObj_of_mem {os : List Obj} (hn : (os.map (·.id)).Nodup) {o : Obj} (h : o ∈ os) :
+    findObj os o.id = some o := by
+  unfold findObj
+  cases hf : os.find? (·.id == o.id) with
+  | none =>
+    have := List.find?_eq_none.mp hf o h
+    simp at this
+  | some o' =>
+    have h1 := List.mem_of_find?_eq_some hf
+    have h2 : o'.id = o.id := by simpa using List.find?_some hf
+    rw [obj_unique hn h1 h h2]
+
+/-- The delete command for an object of kind `isPub`. -/
+def delMsg (isPub : Bool) (id : Nat) : Msg := if isPub then .deletePub id else .deleteSub id
+
+/-- `delete-publisher` / `delete-subscriber` naming object `o` (of any kind, owned
+by anybody), sent on connection `c`, in any reachable state:
+* it succeeds only if `c` is attached to the session that created `o`;
+* on any other connection it is refused with an error, `o` keeps resolving and
+  stays open at the media server. -/
+theorem C18_delete_owner_only (cfg : Cfg) (st : State) (hinv : Inv st) (c : Nat) (isPub : Bool)
+    (o : Obj) (ho : o ∈ st.clients) :
+    ((c, SMsg.deleted o.id) ∈ (step cfg st (.msg c (delMsg isPub o.id))).2 →
+        ∃ x, findConn st c = some x ∧ x.sess = some o.owner) ∧
+    ((∀ x, findConn st c = some x → x.sess ≠ some o.owner) →
+        o ∈ (step cfg st (.msg c (delMsg isPub o.id))).1.clients ∧
+        (o ∈ st.mcuOpen → o ∈ (step cfg st (.msg c (delMsg isPub o.id))).1.mcuOpen) ∧
+        ∀ p ∈ (step cfg st (.msg c (delMsg isPub o.id))).2, p.2.isErr = true) := by
+  cases isPub <;>
+  ( simp only [step, delMsg, Bool.false_eq_true, if_false, if_true]
+    unfold doMsg
+    cases hf : findConn st c with
+    | none => simp [ho]
+    | some x =>
+      simp only
+      split
+      · simp [ho]
+      · simp only [Msg.isInvalid, Bool.and_false, Bool.false_eq_true, if_false]
+        cases hs : x.sess.bind (findSess st) with
+        | none => simp [errOut, SMsg.isErr, ho]
+        | some s =>
+          have hxs : x.sess = some s.sid ∧ s ∈ st.sessions := by
+            cases hx : x.sess with
+            | none => simp [hx] at hs
+            | some sid =>
+              simp [hx] at hs
+              obtain ⟨h1, h2⟩ := findSess_mem hs
+              exact ⟨by rw [h2], h1⟩
+          simp only [doSessionMsg]
+          unfold deleteObj
+          have hfo : findObj (markUsed s.sid st.now st).clients o.id = some o :=
+            findObj_of_mem hinv.idsNodup ho
+          simp only [hfo, ownerCheck_eq, Bool.true_and]
+          split
+          · simp [errOut, SMsg.isErr, markUsed, ho]
+          · split
+            · simp [errOut, SMsg.isErr, markUsed, ho]
+            · rename_i hk hl
+              have hl' : listed s o.isPub o.id = true := by
+                have hk' := hk
+                simp at hk'
+                rw [hk']
+                simpa [listed] using hl
+              obtain ⟨o', ho', h1, _, h3⟩ := hinv.listedIn s hxs.2 _ o.id hl'
+              have := obj_unique hinv.idsNodup ho' ho h1
+              subst this
+              constructor
+              · intro _
+                exact ⟨x, rfl, by rw [hxs.1, h3]⟩
+              · intro hno
+                exact absurd (by rw [hxs.1, h3]) (hno x rfl) )
+
+/-- Non-vacuity: session 2 cannot delete session 1's publisher, session 1 can. -/
+def demoOps2 : List Op :=
+  demoOps ++ [.connect 1, .msg 1 (.hello (.token demoTok))]
+
+example : (step demoCfg (run demoCfg {} demoOps2) (.msg 1 (delMsg true 1))).2 = [(1, .err "unknown_client")] ∧
+    (step demoCfg (run demoCfg {} demoOps2) (.msg 1 (.deletePub 1))).1.clients = (run demoCfg {} demoOps2).clients ∧
+    (step demoCfg (run demoCfg {} demoOps2) (.msg 0 (.deletePub 1))).2 = [(0, .deleted 1)] ∧
+    (step demoCfg (run demoCfg {} demoOps2) (.msg 0 (.deletePub 1))).1.clients = [⟨2, false, 1⟩] := by decide
+
+/-- For every reachable state (any history). -/
+theorem C18_delete_owner_only_run (cfg : Cfg) (ops : List Op) (c : Nat) (isPub : Bool) (o : Obj)
+    (ho : o ∈ (run cfg {} ops).clients) :
+    ((c, SMsg.deleted o.id) ∈ (step cfg (run cfg {} ops) (.msg c (delMsg isPub o.id))).2 →
+        ∃ x, findConn (run cfg {} ops) c = some x ∧ x.sess = some o.owner) ∧
+    ((∀ x, findConn (run cfg {} ops) c = some x → x.sess ≠ some o.owner) →
+        o ∈ (step cfg (run cfg {} ops) (.msg c (delMsg isPub o.id))).1.clients ∧
+        (o ∈ (run cfg {} ops).mcuOpen → o ∈ (step cfg (run cfg {} ops) (.msg c (delMsg isPub o.id))).1.mcuOpen) ∧
+        ∀ p ∈ (step cfg (run cfg {} ops) (.msg c (delMsg isPub o.id))).2, p.2.isErr = true) :=
+  C18_delete_owner_only cfg _ (Inv_run ops Inv_init) c isPub o ho
+
+/-- What "the session that created it" means in the theorems above: a `created`
+reply goes to the connection that asked, that connection has a session, and the
+new object — resolvable and open — carries that session as its owner. -/
+theorem C18_created_owned (cfg : Cfg) (st : State) (c : Nat) (m : Msg) (c' id : Nat)
+    (h : (c', SMsg.created id) ∈ (step cfg st (.msg c m)).2) :
+    c' = c ∧ ∃ x sid b, findConn st c = some x ∧ x.sess = some sid ∧
+      (⟨id, b, sid⟩ : Obj) ∈ (step cfg st (.msg c m)).1.clients ∧
+      (⟨id, b, sid⟩ : Obj) ∈ (step cfg st (.msg c m)).1.mcuOpen :=
+  created_owned cfg st c m c' id h
 
 end SigModel.Proxy
